@@ -2,20 +2,16 @@
 
    1. Prefix masks: for mask = 2^128 - 2^h, [a & mask = a / 2^h * 2^h] and filling in the host
       bits of an aligned address adds 2^h - 1.
-   2. Ip::Address::operator < <= > >= special-case isAnyAddr()/isNoAddr(); they agree with
-      the numeric order except for 0.0.0.0 against ::1..::fffe:ffff:ffff and for
-      255.255.255.255 against ::1:0:0:0..ffff:..:fffe (addr_*_num).
-   3. Configured values [cval] (network a/(128-h), range of addresses/networks) stated
+   2. Configured values [cval] (network a/(128-h), range of addresses/networks) stated
       independently of the code: cv_in; the stored triple cv_val; firstAddress/lastAddress
       are the ends of the set (cv_first/cv_last); aclIpAddrNetworkCompare() has the sign
       of the position of the address relative to the set (good_cv).
-   4. Section Tame: under numeric behaviour of the operators on the addresses involved,
-      Compare/IsSubset/MakeCombinedValue are interval order/inclusion/union; Merge()
-      terminates within its fuel, keeps the stored sequence sorted and pairwise disjoint
-      and adds exactly the new value's addresses to the union (merge_spec); parse() and
-      match() follow (shared splay library theorems of SplayProofs.v).
-   5. Instantiation to lists of configured values under [quirk_free]; the full statement
-      without that hypothesis is refuted by explicit witnesses. *)
+   3. Compare/IsSubset/MakeCombinedValue (all on matchIPAddr(), a total order, since 98f97cc)
+      are interval order/inclusion/union; Merge() terminates within its fuel, keeps the stored
+      sequence sorted and pairwise disjoint and adds exactly the new value's addresses to the
+      union (merge_spec); parse() and match() follow (shared splay library theorems of
+      SplayProofs.v).
+   4. The statements over lists of configured values; "/0" and reversed-range witnesses. *)
 Require Import SquidV.Bytes SquidV.SplayModel SquidV.SplayProofs SquidV.AclipModel.
 Require Import ZifyBool ZifyN.
 Local Open Scope N_scope.
@@ -97,10 +93,7 @@ Proof.
   - assert (H1 : (k + 1) * P <= q * P) by (apply N.mul_le_mono_r; lia).
     repeat split; intros; lia.
 Qed.
-(* ---------- the special-cased comparisons against the numeric order ---------- *)
-Definition lowv6 (e : N) : Prop := 0 < e < V4ANY.         (* ::1 .. ::fffe:ffff:ffff *)
-Definition highv6 (e : N) : Prop := V4NO < e < ALL1.      (* ::1:0:0:0 .. ffff:...:fffe *)
-
+(* ---------- constants; matchIPAddr() is the numeric order ---------- *)
 Lemma V4ANY_val : V4ANY = 281470681743360. Proof. reflexivity. Qed.
 Lemma V4NO_val : V4NO = 281474976710655. Proof. reflexivity. Qed.
 Lemma ALL1_val : ALL1 = 340282366920938463463374607431768211455. Proof. reflexivity. Qed.
@@ -108,33 +101,18 @@ Lemma TOP_val : TOP = 340282366920938463463374607431768211456. Proof. reflexivit
 
 Ltac consts := rewrite ?V4ANY_val, ?V4NO_val, ?ALL1_val, ?TOP_val in *.
 
-Lemma addr_lt_num x y : ~ (x = V4ANY /\ lowv6 y) -> addr_lt x y = (x <? y).
-Proof.
-  unfold addr_lt, isAnyAddr, lowv6. intros H.
-  destruct (N.eqb_spec x 0), (N.eqb_spec x V4ANY), (N.eqb_spec y 0), (N.eqb_spec y V4ANY), (N.ltb_spec x y);
-    cbn [orb andb negb]; try reflexivity; consts; exfalso; lia.
-Qed.
+Lemma mip_sign l r :
+  ((matchIPAddr l r < 0)%Z <-> l < r) /\ ((matchIPAddr l r > 0)%Z <-> r < l).
+Proof. unfold matchIPAddr. destruct (N.compare_spec l r); split; split; intros; lia. Qed.
 
-Lemma addr_le_num x y : ~ (x = V4ANY /\ lowv6 y) -> addr_le x y = (x <=? y).
-Proof.
-  unfold addr_le, isAnyAddr, lowv6. intros H.
-  destruct (N.eqb_spec x 0), (N.eqb_spec x V4ANY), (N.eqb_spec y 0), (N.eqb_spec y V4ANY), (N.leb_spec x y);
-    cbn [orb andb negb]; try reflexivity; consts; exfalso; lia.
-Qed.
-
-Lemma addr_gt_num x y : y < TOP -> ~ (x = V4NO /\ highv6 y) -> addr_gt x y = (y <? x).
-Proof.
-  unfold addr_gt, isNoAddr, highv6. intros Hy H.
-  destruct (N.eqb_spec x ALL1), (N.eqb_spec x V4NO), (N.eqb_spec y ALL1), (N.eqb_spec y V4NO), (N.ltb_spec y x);
-    cbn [orb andb negb]; try reflexivity; consts; exfalso; lia.
-Qed.
-
-Lemma addr_ge_num x y : y < TOP -> ~ (x = V4NO /\ highv6 y) -> addr_ge x y = (y <=? x).
-Proof.
-  unfold addr_ge, isNoAddr, highv6. intros Hy H.
-  destruct (N.eqb_spec x ALL1), (N.eqb_spec x V4NO), (N.eqb_spec y ALL1), (N.eqb_spec y V4NO), (N.leb_spec y x);
-    cbn [orb andb negb]; try reflexivity; consts; exfalso; lia.
-Qed.
+Lemma mip_ltb l r : (matchIPAddr l r <? 0)%Z = (l <? r).
+Proof. unfold matchIPAddr. destruct (N.compare_spec l r), (N.ltb_spec l r); try reflexivity; lia. Qed.
+Lemma mip_gtb l r : (matchIPAddr l r >? 0)%Z = (r <? l).
+Proof. unfold matchIPAddr. destruct (N.compare_spec l r), (N.ltb_spec r l); try reflexivity; lia. Qed.
+Lemma mip_leb l r : (matchIPAddr l r <=? 0)%Z = (l <=? r).
+Proof. unfold matchIPAddr. destruct (N.compare_spec l r), (N.leb_spec l r); try reflexivity; lia. Qed.
+Lemma mip_geb l r : (matchIPAddr l r >=? 0)%Z = (r <=? l).
+Proof. unfold matchIPAddr. destruct (N.compare_spec l r), (N.leb_spec r l); try reflexivity; lia. Qed.
 
 Lemma land_ALL1 x : x < TOP -> N.land x ALL1 = x.
 Proof. intros H. unfold ALL1. rewrite N.land_ones. apply N.mod_small. exact H. Qed.
@@ -222,20 +200,11 @@ Qed.
 (* ---------- what the proofs need of a stored value ---------- *)
 Definition inR (x : N) (w : ipval) : Prop := first_addr w <= x <= last_addr w.
 
-(* the two special-cased comparisons of aclIpAddrNetworkCompare() agree with the numeric order *)
-Definition tameA (x : N) (w : ipval) : Prop :=
-  addr_ge (N.land x (mk w)) (a1 w) = (a1 w <=? N.land x (mk w)) /\
-  addr_le (N.land x (mk w)) (a2 w) = (N.land x (mk w) <=? a2 w).
-
 Definition good (w : ipval) : Prop :=
   first_addr w <= last_addr w /\ last_addr w < TOP /\
   (last_addr w = V4ANY -> first_addr w = V4ANY) /\
-  (forall x, x < TOP -> tameA x w ->
+  (forall x, x < TOP ->
      ((net_cmp x w < 0)%Z <-> x < first_addr w) /\ ((net_cmp x w > 0)%Z <-> last_addr w < x)).
-
-Lemma mip_sign l r :
-  ((matchIPAddr l r < 0)%Z <-> l < r) /\ ((matchIPAddr l r > 0)%Z <-> r < l).
-Proof. unfold matchIPAddr. destruct (N.compare_spec l r); split; split; intros; lia. Qed.
 
 Lemma isAny_iff b : isAnyAddr b = true <-> b = 0 \/ b = V4ANY.
 Proof. unfold isAnyAddr. destruct (N.eqb_spec b 0), (N.eqb_spec b V4ANY); cbn [orb]; split; intros; try tauto; try discriminate; destruct H; contradiction. Qed.
@@ -251,7 +220,7 @@ Proof.
     + intros E. destruct (N.eq_dec h 0) as [->|Hn]; [cbn in E; lia|].
       exfalso. assert (E2 : 2 ^ h = 2 * 2 ^ (h - 1)) by (rewrite <- N.pow_succ_r'; f_equal; lia).
       rewrite E2 in *. set (P' := 2 ^ (h - 1)) in *. set (q := a / (2 * P')) in *. consts. lia.
-    + intros x Hx _. unfold net_cmp. cbn [mk a1 a2]. change (isAnyAddr 0) with true. cbn iota.
+    + intros x Hx. unfold net_cmp. cbn [mk a1 a2]. change (isAnyAddr 0) with true. cbn iota.
       unfold applyMask. rewrite (land_pmask x h Hx Hh).
       destruct (mip_sign (x / 2 ^ h * 2 ^ h) a) as [M1 M2]. rewrite M1, M2.
       destruct (round_cmp (2 ^ h) (a / 2 ^ h) x HP) as (R1 & R2 & _).
@@ -265,7 +234,7 @@ Proof.
     + intros E. destruct (N.eq_dec h 0) as [->|Hn]; [cbn in E; apply Hany; lia|].
       exfalso. assert (E2 : 2 ^ h = 2 * 2 ^ (h - 1)) by (rewrite <- N.pow_succ_r'; f_equal; lia).
       rewrite E2 in *. set (P' := 2 ^ (h - 1)) in *. set (q := b / (2 * P')) in *. consts. lia.
-    + intros x Hx [T1 T2]. unfold net_cmp. cbn [mk a1 a2] in *.
+    + intros x Hx. unfold net_cmp. cbn [mk a1 a2] in *.
       unfold applyMask. rewrite (land_pmask x h Hx Hh) in *.
       destruct (mip_sign (x / 2 ^ h * 2 ^ h) a) as [M1 M2].
       destruct (round_cmp (2 ^ h) (a / 2 ^ h) x HP) as (R1 & R2 & R3 & _).
@@ -275,7 +244,7 @@ Proof.
         rewrite M1, M2.
         set (ka := a / 2 ^ h) in *. clearbody ka. set (P := 2 ^ h) in *. set (A := x / P * P) in *.
         rewrite <- Eab in *. rewrite Ea in *. rewrite R1, R2. split; split; intros; lia.
-      * rewrite T1, T2.
+      * rewrite mip_geb, mip_leb.
         set (ka := a / 2 ^ h) in *. set (kb := b / 2 ^ h) in *. clearbody ka kb.
         set (P := 2 ^ h) in *. set (A := x / P * P) in *. subst a b.
         destruct (N.leb_spec (ka * P) A) as [L1|L1], (N.leb_spec A (kb * P)) as [L2|L2]; cbn [andb].
@@ -333,63 +302,46 @@ Qed.
 Lemma covered_nil q : ~ covered q [].
 Proof. intros (x & [] & _). Qed.
 
-Lemma mono_net_cmp p l : p < TOP -> Forall (fun w => good w /\ tameA p w) l -> sd l -> mono (net_cmp p) l.
+Lemma mono_net_cmp p l : p < TOP -> Forall good l -> sd l -> mono (net_cmp p) l.
 Proof.
-  intros Hp. apply mono_of_sd. intros x y [(Gx1 & _ & _ & Gx4) Tx] [(Gy1 & _ & _ & Gy4) Ty] B.
-  destruct (Gx4 p Hp Tx) as (X1 & X2). destruct (Gy4 p Hp Ty) as (Y1 & Y2). unfold before in B.
+  intros Hp. apply mono_of_sd. intros x y (Gx1 & _ & _ & Gx4) (Gy1 & _ & _ & Gy4) B.
+  destruct (Gx4 p Hp) as (X1 & X2). destruct (Gy4 p Hp) as (Y1 & Y2). unfold before in B.
   destruct (Z.lt_trichotomy (net_cmp p x) 0) as [H|[H|H]].
   - assert (net_cmp p y < 0)%Z by (apply Y1; apply X1 in H; lia). lia.
   - destruct (Z.lt_trichotomy (net_cmp p y) 0) as [G|[G|G]]; lia.
   - assert (Z.sgn (net_cmp p y) <= 1)%Z by (destruct (net_cmp p y); cbn; lia). lia.
 Qed.
 
-(* ================================================================== *)
-Section Tame.
-(* [okpt]: the addresses that reach Ip::Address::operator < <= > (end points of values);
-   [okm]: the masks of stored values. On these the operators agree with the numeric order. *)
-Variable okpt : N -> Prop.
-Variable okm : N -> Prop.
-Hypothesis tame_lt : forall x y, okpt x -> okpt y -> addr_lt x y = (x <? y).
-Hypothesis tame_le : forall x y, okpt x -> okpt y -> addr_le x y = (x <=? y).
-Hypothesis tame_gt : forall x y, okpt x -> okpt y -> addr_gt x y = (y <? x).
-Hypothesis okm_all1 : okm ALL1.
-
-Definition src (w : ipval) : Prop :=
-  okpt (a1 w) /\ okpt (a2 w) /\ okpt (first_addr w) /\ okpt (last_addr w) /\ okm (mk w).
-
-Definition gs (w : ipval) : Prop := good w /\ src w.
-
-Lemma icompare_spec a b : gs a -> gs b ->
+(* ---------- Compare / IsSubset / MakeCombinedValue on intervals ---------- *)
+Lemma icompare_spec a b : good a -> good b ->
   ((icompare a b < 0)%Z <-> before a b) /\ ((icompare a b > 0)%Z <-> before b a) /\
   ((icompare a b = 0)%Z <-> ~ before a b /\ ~ before b a).
 Proof.
-  intros [(Ga1 & _) (_ & _ & Fa & La & _)] [(Gb1 & _) (_ & _ & Fb & Lb & _)].
-  unfold icompare, before. rewrite (tame_lt _ _ La Fb), (tame_gt _ _ Fa Lb).
+  intros (Ga1 & _) (Gb1 & _). unfold icompare, before. rewrite mip_ltb, mip_gtb.
   destruct (N.ltb_spec (last_addr a) (first_addr b)), (N.ltb_spec (last_addr b) (first_addr a));
     repeat split; intros; try lia.
 Qed.
 
-Lemma icompare_refl a : gs a -> icompare a a = 0%Z.
+Lemma icompare_refl a : good a -> icompare a a = 0%Z.
 Proof.
   intros G. destruct (icompare_spec a a G G) as (_ & _ & H). apply H.
-  destruct G as [(G1 & _) _]. unfold before. lia.
+  destruct G as (G1 & _). unfold before. lia.
 Qed.
 
-Lemma is_subset_spec a b : gs a -> gs b ->
+Lemma is_subset_spec a b :
   (is_subset a b = true <-> first_addr b <= first_addr a /\ last_addr a <= last_addr b).
 Proof.
-  intros [_ (_ & _ & Fa & La & _)] [_ (_ & _ & Fb & Lb & _)].
-  unfold is_subset. rewrite (tame_le _ _ Fb Fa), (tame_le _ _ La Lb).
+  unfold is_subset. rewrite !mip_leb.
   destruct (N.leb_spec (first_addr b) (first_addr a)), (N.leb_spec (last_addr a) (last_addr b));
     cbn [andb]; split; intros; try lia; try discriminate.
 Qed.
 
-Lemma mono_icompare v l : gs v -> Forall gs l -> sd l -> mono (icompare v) l.
+Lemma mono_icompare v l : good v -> Forall good l -> sd l -> mono (icompare v) l.
 Proof.
   intros Gv. apply mono_of_sd. intros x y Gx Gy B.
   destruct (icompare_spec v x Gv Gx) as (X1 & X2 & X3).
   destruct (icompare_spec v y Gv Gy) as (Y1 & Y2 & Y3).
-  destruct Gx as [(Gx1 & _) _]. destruct Gy as [(Gy1 & _) _]. destruct Gv as [(Gv1 & _) _].
+  destruct Gx as (Gx1 & _). destruct Gy as (Gy1 & _). destruct Gv as (Gv1 & _).
   unfold before in *.
   destruct (Z.lt_trichotomy (icompare v x) 0) as [H|[H|H]].
   - assert (icompare v y < 0)%Z by (apply Y1; apply X1 in H; lia). lia.
@@ -397,30 +349,26 @@ Proof.
   - assert (Z.sgn (icompare v y) <= 1)%Z by (destruct (icompare v y); cbn; lia). lia.
 Qed.
 
-
 (* MakeCombinedValue() on two partially overlapping values *)
-Lemma combined_gs a b : gs a -> gs b ->
+Lemma combined_good a b : good a -> good b ->
   ~ before a b -> ~ before b a -> is_subset a b = false -> is_subset b a = false ->
-  gs (combined a b) /\
+  good (combined a b) /\
   first_addr (combined a b) = N.min (first_addr a) (first_addr b) /\
   last_addr (combined a b) = N.max (last_addr a) (last_addr b).
 Proof.
   intros Ga Gb Nab Nba Sab Sba.
   assert (S1 : ~ (first_addr b <= first_addr a /\ last_addr a <= last_addr b))
-    by (intros H; apply (is_subset_spec a b Ga Gb) in H; congruence).
+    by (intros H; apply (is_subset_spec a b) in H; congruence).
   assert (S2 : ~ (first_addr a <= first_addr b /\ last_addr b <= last_addr a))
-    by (intros H; apply (is_subset_spec b a Gb Ga) in H; congruence).
-  destruct Ga as [(Ga1 & Ga2 & Ga3 & _) (_ & _ & Fa & La & _)].
-  destruct Gb as [(Gb1 & Gb2 & Gb3 & _) (_ & _ & Fb & Lb & _)].
+    by (intros H; apply (is_subset_spec b a) in H; congruence).
+  destruct Ga as (Ga1 & Ga2 & Ga3 & _). destruct Gb as (Gb1 & Gb2 & Gb3 & _).
   unfold before in *.
   set (f := addr_min (first_addr a) (first_addr b)).
   set (l := addr_max (last_addr a) (last_addr b)).
   assert (Ef : f = N.min (first_addr a) (first_addr b)).
-  { unfold f, addr_min. rewrite (tame_lt _ _ Fb Fa). destruct (N.ltb_spec (first_addr b) (first_addr a)); lia. }
+  { unfold f, addr_min, addr_less. rewrite mip_ltb. destruct (N.ltb_spec (first_addr b) (first_addr a)); lia. }
   assert (El : l = N.max (last_addr a) (last_addr b)).
-  { unfold l, addr_max. rewrite (tame_lt _ _ La Lb). destruct (N.ltb_spec (last_addr a) (last_addr b)); lia. }
-  assert (Of : okpt f) by (unfold f, addr_min; destruct (addr_lt _ _); assumption).
-  assert (Ol : okpt l) by (unfold l, addr_max; destruct (addr_lt _ _); assumption).
+  { unfold l, addr_max, addr_less. rewrite mip_ltb. destruct (N.ltb_spec (last_addr a) (last_addr b)); lia. }
   assert (Hfl : f < l) by lia.
   assert (Hany : isAnyAddr l = false).
   { destruct (isAnyAddr l) eqn:E; [|reflexivity]. exfalso. apply isAny_iff in E. destruct E as [E|E]; [lia|].
@@ -430,22 +378,20 @@ Proof.
   assert (Lc : last_addr (combined a b) = l).
   { unfold last_addr, combined. cbn [a1 a2 mk]. fold f l. rewrite Hany. reflexivity. }
   split; [|rewrite Fc, Lc; auto].
-  split.
-  - unfold good. rewrite Fc, Lc. split; [lia|]. split; [lia|]. split; [intros E; exfalso; assert (X : isAnyAddr l = true) by (apply isAny_iff; right; exact E); congruence|].
-    intros x Hx [T1 T2]. unfold combined in T1, T2. cbn [a1 a2 mk] in T1, T2. fold f l in T1, T2.
-    unfold net_cmp, combined. cbn [a1 a2 mk]. fold f l. unfold applyMask. rewrite (land_ALL1 x Hx) in *.
-    rewrite Hany, T1, T2. destruct (mip_sign x f) as [M1 M2].
-    destruct (N.leb_spec f x), (N.leb_spec x l); cbn [andb]; rewrite ?M1, ?M2; split; split; intros; lia.
-  - unfold src. rewrite Fc, Lc. unfold combined. cbn [a1 a2 mk]. fold f l. auto.
+  unfold good. rewrite Fc, Lc. split; [lia|]. split; [lia|].
+  split; [intros E; exfalso; assert (X : isAnyAddr l = true) by (apply isAny_iff; right; exact E); congruence|].
+  intros x Hx. unfold net_cmp, combined. cbn [a1 a2 mk]. fold f l. unfold applyMask. rewrite (land_ALL1 x Hx).
+  rewrite Hany, mip_geb, mip_leb. destruct (mip_sign x f) as [M1 M2].
+  destruct (N.leb_spec f x), (N.leb_spec x l); cbn [andb]; rewrite ?M1, ?M2; split; split; intros; lia.
 Qed.
 
 (* ---------- Merge(): the stored sequence stays sorted and disjoint, its union grows by the new value ---------- *)
-Definition inv (t : tree ipval) : Prop := Forall gs (inorder t) /\ sd (inorder t).
+Definition inv (t : tree ipval) : Prop := Forall good (inorder t) /\ sd (inorder t).
 
 Lemma inv_leaf : inv Leaf.
 Proof. split; [constructor| exact I]. Qed.
 
-Theorem merge_spec : forall fuel t n v, inv t -> gs v -> (tree_size t < fuel)%nat ->
+Theorem merge_spec : forall fuel t n v, inv t -> good v -> (tree_size t < fuel)%nat ->
   exists t' n', merge fuel t n v = MOk t' n' /\ inv t' /\
     (forall q, covered q (inorder t') <-> covered q (inorder t) \/ inR q v).
 Proof.
@@ -454,10 +400,10 @@ Proof.
   pose proof (mono_icompare v (inorder t) Gv W S) as M.
   destruct (sp_insert (icompare v) v t) as [t1 [old|]] eqn:Ei.
   - destruct (sp_insert_found _ _ _ _ _ Ei) as (Hi & Hz & Hin).
-    assert (Gold : gs old) by (rewrite Forall_forall in W; apply W, Hin).
+    assert (Gold : good old) by (rewrite Forall_forall in W; apply W, Hin).
     destruct (icompare_spec v old Gv Gold) as (_ & _ & C0). apply C0 in Hz. destruct Hz as [Nvo Nov].
-    pose proof (is_subset_spec v old Gv Gold) as SS1.
-    pose proof (is_subset_spec old v Gold Gv) as SS2.
+    pose proof (is_subset_spec v old) as SS1.
+    pose proof (is_subset_spec old v) as SS2.
     (* the removal of old, common to the two "continue" branches *)
     assert (Rem : exists A B t2, inorder t = A ++ old :: B /\ sp_remove (icompare old) t1 = (t2, true) /\
                     inorder t2 = A ++ B /\ inv t2 /\ (tree_size t2 < f)%nat).
@@ -477,7 +423,7 @@ Proof.
       - unfold inv. rewrite Hi2. split; [apply Forall_app; auto|].
         apply sd_app. repeat split; try assumption.
         intros x y Hx Hy. specialize (BA x Hx). specialize (BB y Hy).
-        destruct Gold as [(G1 & _) _]. unfold before in *. lia.
+        destruct Gold as (G1 & _). unfold before in *. lia.
       - rewrite <- (inorder_length t2), Hi2. rewrite <- (inorder_length t), HAB in Hf.
         rewrite app_length in *. cbn [length] in Hf. lia. }
     destruct (is_subset v old) eqn:S1.
@@ -490,13 +436,13 @@ Proof.
         exists t', n'. split; [exact Em|]. split; [exact Inv'|].
         intros q. rewrite Hcov, Hi2, HAB. rewrite !covered_app, covered_cons.
         pose proof (proj1 SS2 eq_refl) as S2'. unfold inR. split; [tauto|]. intros [[H|[H|H]]|H]; try tauto. right. lia.
-      * destruct (combined_gs old v Gold Gv Nov Nvo S2 S1) as (Gc & Fc & Lc).
+      * destruct (combined_good old v Gold Gv Nov Nvo S2 S1) as (Gc & Fc & Lc).
         destruct (IH t2 (n - 1)%Z (combined old v) Inv2 Gc Sz) as (t' & n' & Em & Inv' & Hcov).
         exists t', n'. split; [exact Em|]. split; [exact Inv'|].
         intros q. rewrite Hcov, Hi2, HAB. rewrite !covered_app, covered_cons.
         assert (Hu : inR q (combined old v) <-> inR q old \/ inR q v).
         { unfold inR. rewrite Fc, Lc. unfold before in *.
-          destruct Gold as [(Go1 & _) _]. destruct Gv as [(Gv1 & _) _]. lia. }
+          destruct Gold as (Go1 & _). destruct Gv as (Gv1 & _). lia. }
         rewrite Hu. tauto.
   - destruct (sp_insert_new _ v t t1 M Ei) as (A & B & HAB & Hi & PA & PB).
     rewrite HAB in W, S. apply Forall_app in W. destruct W as [WA WB].
@@ -512,7 +458,7 @@ Proof.
     + intros q. rewrite Hi, HAB. rewrite !covered_app, covered_cons. tauto.
 Qed.
 
-Theorem merge_all_spec : forall vals t n, inv t -> Forall gs vals ->
+Theorem merge_all_spec : forall vals t n, inv t -> Forall good vals ->
   exists t' n', merge_all t n vals = MOk t' n' /\ inv t' /\
     (forall q, covered q (inorder t') <-> covered q (inorder t) \/ covered q vals).
 Proof.
@@ -527,22 +473,20 @@ Proof.
 Qed.
 
 (* ---------- match(): lookup in a sorted, disjoint sequence ---------- *)
-Theorem acl_lookup_spec t p : inv t -> p < TOP -> Forall (tameA p) (inorder t) ->
+Theorem acl_lookup_spec t p : inv t -> p < TOP ->
   inorder (fst (acl_lookup t p)) = inorder t /\
   (snd (acl_lookup t p) = true <-> covered p (inorder t)).
 Proof.
-  intros [W S] Hp HT. unfold acl_lookup.
-  assert (W2 : Forall (fun w => good w /\ tameA p w) (inorder t)).
-  { rewrite Forall_forall in *. intros w Hw. split; [apply W, Hw| apply HT, Hw]. }
+  intros [W S] Hp. unfold acl_lookup.
   pose proof (sp_find_inorder (net_cmp p) t) as Hi.
-  pose proof (sp_find_iff (net_cmp p) t (mono_net_cmp p _ Hp W2 S)) as Hiff.
+  pose proof (sp_find_iff (net_cmp p) t (mono_net_cmp p _ Hp W S)) as Hiff.
   destruct (sp_find (net_cmp p) t) as [t' r]. cbn [fst snd] in *. split; [exact Hi|].
   assert (E : (match r with Some _ => true | None => false end) = true <-> exists x, r = Some x).
   { destruct r as [x|]; split; intros H; [exists x; reflexivity| reflexivity| discriminate| destruct H; discriminate]. }
   rewrite E, Hiff. unfold covered.
   split; intros (x & Hin & Hx); exists x; (split; [exact Hin|]);
-    rewrite Forall_forall in W2; destruct (W2 x Hin) as [(G1 & _ & _ & G4) Tx];
-    destruct (G4 p Hp Tx) as (X1 & X2); unfold inR in *; lia.
+    rewrite Forall_forall in W; destruct (W x Hin) as (G1 & _ & _ & G4);
+    destruct (G4 p Hp) as (X1 & X2); unfold inR in *; lia.
 Qed.
 
 (* a lookup re-shapes the tree but keeps the invariant *)
@@ -567,7 +511,7 @@ Definition any6 (toks : list (bytes * spec)) : bool :=
 Definition tok_parsed (tk : bytes * spec) : Prop :=
   parse_global (fst tk) <> None \/ exists vals, snd tk = SV vals.
 
-Theorem acl_parse_from_spec : forall toks f4 f6 t n, inv t -> Forall tok_parsed toks -> Forall gs (vals_of toks) ->
+Theorem acl_parse_from_spec : forall toks f4 f6 t n, inv t -> Forall tok_parsed toks -> Forall good (vals_of toks) ->
   exists t' n', acl_parse_from f4 f6 t n toks = POk (f4 || any4 toks) (f6 || any6 toks) t' n' /\ inv t' /\
     (forall q, covered q (inorder t') <-> covered q (inorder t) \/ covered q (vals_of toks)).
 Proof.
@@ -594,142 +538,55 @@ Qed.
 Definition match_spec (f4 f6 : bool) (p : N) (l : list ipval) : Prop :=
   (f4 = true /\ f6 = true) \/ (f4 = true /\ isIPv4 p = true) \/ (f6 = true /\ isIPv4 p = false) \/ covered p l.
 
-Theorem acl_match_spec f4 f6 t p : inv t -> p < TOP -> Forall (tameA p) (inorder t) ->
+Theorem acl_match_spec f4 f6 t p : inv t -> p < TOP ->
   inv (fst (acl_match f4 f6 t p)) /\ inorder (fst (acl_match f4 f6 t p)) = inorder t /\
   (snd (acl_match f4 f6 t p) = true <-> match_spec f4 f6 p (inorder t)).
 Proof.
-  intros Hinv Hp HT. destruct (acl_lookup_spec t p Hinv Hp HT) as [Li Lm].
+  intros Hinv Hp. destruct (acl_lookup_spec t p Hinv Hp) as [Li Lm].
   pose proof (inv_lookup t p Hinv) as Linv.
   unfold acl_match, match_spec, isIPv6.
   destruct f4, f6, (isIPv4 p); cbn [negb fst snd]; (split; [assumption|]); (split; [assumption || reflexivity|]);
     rewrite ?Lm; split; intros; try tauto; try (destruct H as [[? ?]|[[? ?]|[[? ?]|?]]]; try discriminate; tauto).
 Qed.
-End Tame.
 
 (* ================================================================== *)
-(* the side condition in terms of the configured values                *)
-Definition pts_of (c : cval) : list N :=
-  match c with
-  | CNet a h => [a; 0; a + (2 ^ h - 1)]
-  | CRange a b h => [a; b; b + (2 ^ h - 1)]
-  end.
-(* every address the configured values put into a comparison: first and last addresses, second addresses *)
-Definition points (cs : list cval) : list N := flat_map pts_of cs.
-(* the client address as aclIpAddrNetworkCompare() sees it: under each configured mask, and unmasked (merged ranges) *)
-Definition probe_points (cs : list cval) (p : N) : list N := p :: map (fun c => N.land p (mk (cv_val c))) cs.
-
-Definition no_low (P : list N) : Prop := forall e, In e P -> ~ lowv6 e.
-Definition no_high (P : list N) : Prop := forall e, In e P -> ~ highv6 e.
-
-(* 0.0.0.0 does not meet an end point in ::1 .. ::fffe:ffff:ffff, and
-   255.255.255.255 does not meet an end point in ::1:0:0:0 .. ffff:...:fffe *)
-Definition quirk_free_vals (cs : list cval) : Prop :=
-  (no_low (points cs) \/ ~ In V4ANY (points cs)) /\ (no_high (points cs) \/ ~ In V4NO (points cs)).
-Definition quirk_free (cs : list cval) (p : N) : Prop :=
-  (no_low (points cs) \/ (~ In V4ANY (points cs) /\ ~ In V4ANY (probe_points cs p))) /\
-  (no_high (points cs) \/ (~ In V4NO (points cs) /\ ~ In V4NO (probe_points cs p))).
-
-Lemma quirk_free_vals_of cs p : quirk_free cs p -> quirk_free_vals cs.
-Proof. unfold quirk_free, quirk_free_vals. tauto. Qed.
-
-Definition okpt_of (cs : list cval) : N -> Prop := fun e => In e (points cs).
-Definition okm_of (cs : list cval) : N -> Prop := fun m => m = ALL1 \/ In m (map (fun c => mk (cv_val c)) cs).
-
+(* the property over configured values                                  *)
 Lemma cv_hi_top c : cv_ok c -> cv_lo c <= cv_hi c /\ cv_hi c < TOP.
 Proof.
   intros H. destruct (good_cv c H) as (G1 & G2 & _). rewrite (cv_first c H), (cv_last c H) in *. lia.
 Qed.
 
-Lemma points_top cs : Forall cv_ok cs -> forall e, In e (points cs) -> e < TOP.
+Lemma good_cv_all cs : Forall cv_ok cs -> Forall good (map cv_val cs).
 Proof.
-  intros H e He. unfold points in He. apply in_flat_map in He. destruct He as (c & Hc & He).
-  rewrite Forall_forall in H. specialize (H c Hc). pose proof (cv_hi_top c H) as [L T].
-  destruct c as [a h|a b h]; cbn [pts_of cv_ok cv_lo cv_hi In] in *;
-    destruct He as [<-|[<-|[<-|[]]]]; try lia; consts; lia.
+  intros H. rewrite Forall_forall in *. intros v Hv. apply in_map_iff in Hv. destruct Hv as (c & <- & Hc).
+  apply good_cv, H, Hc.
 Qed.
 
-Section Instance.
-Variable cs : list cval.
-Hypothesis cs_ok : Forall cv_ok cs.
-Hypothesis qf : quirk_free_vals cs.
-
-Lemma inst_lt x y : okpt_of cs x -> okpt_of cs y -> addr_lt x y = (x <? y).
+Lemma covered_cv cs q : Forall cv_ok cs -> (covered q (map cv_val cs) <-> exists c, In c cs /\ cv_in q c).
 Proof.
-  intros Hx Hy. apply addr_lt_num. intros [-> L]. destruct qf as [[Q|Q] _]; [exact (Q y Hy L)| exact (Q Hx)].
-Qed.
-Lemma inst_le x y : okpt_of cs x -> okpt_of cs y -> addr_le x y = (x <=? y).
-Proof.
-  intros Hx Hy. apply addr_le_num. intros [-> L]. destruct qf as [[Q|Q] _]; [exact (Q y Hy L)| exact (Q Hx)].
-Qed.
-Lemma inst_gt x y : okpt_of cs x -> okpt_of cs y -> addr_gt x y = (y <? x).
-Proof.
-  intros Hx Hy. apply addr_gt_num; [exact (points_top cs cs_ok y Hy)|].
-  intros [-> L]. destruct qf as [_ [Q|Q]]; [exact (Q y Hy L)| exact (Q Hx)].
-Qed.
-Lemma inst_all1 : okm_of cs ALL1.
-Proof. left. reflexivity. Qed.
-
-Lemma inst_gs c : In c cs -> gs (okpt_of cs) (okm_of cs) (cv_val c).
-Proof.
-  intros Hc. pose proof cs_ok as H. rewrite Forall_forall in H. specialize (H c Hc).
-  split; [exact (good_cv c H)|]. unfold src. rewrite (cv_first c H), (cv_last c H).
-  assert (Hp : forall e, In e (pts_of c) -> okpt_of cs e).
-  { intros e He. unfold okpt_of, points. apply in_flat_map. exists c. auto. }
-  repeat split.
-  - apply Hp. destruct c; cbn; auto.
-  - apply Hp. destruct c; cbn; auto.
-  - apply Hp. destruct c; cbn; auto.
-  - apply Hp. destruct c; cbn; auto.
-  - right. apply in_map_iff. exists c. auto.
-Qed.
-
-Lemma inst_gs_all : Forall (gs (okpt_of cs) (okm_of cs)) (map cv_val cs).
-Proof. rewrite Forall_forall. intros v Hv. apply in_map_iff in Hv. destruct Hv as (c & <- & Hc). apply inst_gs, Hc. Qed.
-
-Lemma covered_cv q : covered q (map cv_val cs) <-> exists c, In c cs /\ cv_in q c.
-Proof.
-  pose proof cs_ok as H. rewrite Forall_forall in H. unfold covered, inR, cv_in. split.
+  intros H. rewrite Forall_forall in H. unfold covered, inR, cv_in. split.
   - intros (w & Hw & Hq). apply in_map_iff in Hw. destruct Hw as (c & <- & Hc). exists c. split; [exact Hc|].
     rewrite (cv_first c (H c Hc)), (cv_last c (H c Hc)) in Hq. exact Hq.
   - intros (c & Hc & Hq). exists (cv_val c). split; [apply in_map, Hc|].
     rewrite (cv_first c (H c Hc)), (cv_last c (H c Hc)). exact Hq.
 Qed.
 
-(* the special-cased comparisons of the lookup agree with the numeric order for every value that can be stored *)
-Lemma inst_tameA p w : p < TOP -> quirk_free cs p -> src (okpt_of cs) (okm_of cs) w -> tameA p w.
-Proof.
-  intros Hp [Q1 Q2] (O1 & O2 & _ & _ & Om).
-  assert (HA : In (N.land p (mk w)) (probe_points cs p)).
-  { destruct Om as [E|E]; [rewrite E, (land_ALL1 p Hp); left; reflexivity|].
-    right. apply in_map_iff in E. destruct E as (c & E & Hc). apply in_map_iff. exists c. rewrite E. auto. }
-  split.
-  - apply addr_ge_num; [exact (points_top cs cs_ok _ O1)|]. intros [E L].
-    destruct Q2 as [Q|[_ Q]]; [exact (Q _ O1 L)| rewrite E in HA; exact (Q HA)].
-  - apply addr_le_num. intros [E L].
-    destruct Q1 as [Q|[_ Q]]; [exact (Q _ O2 L)| rewrite E in HA; exact (Q HA)].
-Qed.
-End Instance.
-
-(* ================================================================== *)
-(* the property over configured values                                  *)
 Definition acl_spec (f4 f6 : bool) (cs : list cval) (p : N) : Prop :=
   (f4 = true /\ f6 = true) \/ (f4 = true /\ isIPv4 p = true) \/ (f6 = true /\ isIPv4 p = false) \/
   (exists c, In c cs /\ cv_in p c).
 
 Definition stored_ok (cs : list cval) (t : tree ipval) : Prop :=
-  inv (okpt_of cs) (okm_of cs) t /\ (forall q, covered q (inorder t) <-> exists c, In c cs /\ cv_in q c).
+  inv t /\ (forall q, covered q (inorder t) <-> exists c, In c cs /\ cv_in q c).
 
 (* parse(): ends normally; the stored ranges are sorted, pairwise disjoint, and have the configured union *)
 Theorem acl_parse_ok toks cs : Forall tok_parsed toks -> vals_of toks = map cv_val cs -> Forall cv_ok cs ->
-  quirk_free_vals cs ->
   exists t n, acl_parse toks = POk (any4 toks) (any6 toks) t n /\ stored_ok cs t.
 Proof.
-  intros HP HV Hok Q.
-  destruct (acl_parse_from_spec (okpt_of cs) (okm_of cs) (inst_lt cs Q) (inst_le cs Q) (inst_gt cs Hok Q)
-              (inst_all1 cs) toks false false Leaf 0%Z (inv_leaf _ _) HP ltac:(rewrite HV; apply inst_gs_all; assumption))
+  intros HP HV Hok.
+  destruct (acl_parse_from_spec toks false false Leaf 0%Z inv_leaf HP ltac:(rewrite HV; apply good_cv_all; assumption))
     as (t & n & E & Inv & Hc).
   exists t, n. split; [exact E|]. split; [exact Inv|].
-  intros q. rewrite Hc, HV, (covered_cv cs Hok q). cbn [inorder]. split; [|tauto].
+  intros q. rewrite Hc, HV, (covered_cv cs q Hok). cbn [inorder]. split; [|tauto].
   intros [H|H]; [destruct (covered_nil q H)| exact H].
 Qed.
 
@@ -739,27 +596,24 @@ Proof.
   rewrite Forall_forall in F. apply F. apply in_or_app. right. left. reflexivity.
 Qed.
 
-Theorem acl_match_ok cs t f4 f6 p : Forall cv_ok cs -> stored_ok cs t -> p < TOP -> quirk_free cs p ->
+Theorem acl_match_ok cs t f4 f6 p : stored_ok cs t -> p < TOP ->
   stored_ok cs (fst (acl_match f4 f6 t p)) /\
   (snd (acl_match f4 f6 t p) = true <-> acl_spec f4 f6 cs p).
 Proof.
-  intros Hok [Inv Hc] Hp Q. pose proof (quirk_free_vals_of cs p Q) as Qv.
-  assert (HT : Forall (tameA p) (inorder t)).
-  { destruct Inv as [W _]. rewrite Forall_forall in W |- *. intros w Hw. destruct (W w Hw) as [_ Sw].
-    exact (inst_tameA cs Hok p w Hp Q Sw). }
-  destruct (acl_match_spec (okpt_of cs) (okm_of cs) (inst_lt cs Qv) (inst_le cs Qv) (inst_gt cs Hok Qv) f4 f6 t p Inv Hp HT) as (I2 & Hi & Hm).
+  intros [Inv Hc] Hp.
+  destruct (acl_match_spec f4 f6 t p Inv Hp) as (I2 & Hi & Hm).
   split.
   - split; [exact I2|]. intros q. rewrite Hi. apply Hc.
   - rewrite Hm. unfold match_spec, acl_spec. rewrite Hc. tauto.
 Qed.
 
-Theorem acl_match_seq_ok cs f4 f6 : Forall cv_ok cs -> forall ps t,
-  stored_ok cs t -> Forall (fun p => p < TOP /\ quirk_free cs p) ps ->
+Theorem acl_match_seq_ok cs f4 f6 : forall ps t,
+  stored_ok cs t -> Forall (fun p => p < TOP) ps ->
   Forall2 (fun p b => b = true <-> acl_spec f4 f6 cs p) ps (snd (acl_match_seq f4 f6 t ps)).
 Proof.
-  intros Hok. induction ps as [|p ps IH]; intros t St HP; cbn [acl_match_seq]; [constructor|].
-  inversion HP as [|? ? [Hp Q] HR]; subst.
-  destruct (acl_match_ok cs t f4 f6 p Hok St Hp Q) as [St1 Hm].
+  induction ps as [|p ps IH]; intros t St HP; cbn [acl_match_seq]; [constructor|].
+  inversion HP as [|? ? Hp HR]; subst.
+  destruct (acl_match_ok cs t f4 f6 p St Hp) as [St1 Hm].
   destruct (acl_match f4 f6 t p) as [t1 b]. cbn [fst snd] in *.
   specialize (IH t1 St1 HR). destruct (acl_match_seq f4 f6 t1 ps) as [t2 bs]. cbn [snd] in *.
   constructor; assumption.
@@ -767,13 +621,13 @@ Qed.
 
 (* the property, end to end *)
 Theorem acl_correct toks cs p : Forall tok_parsed toks -> vals_of toks = map cv_val cs -> Forall cv_ok cs ->
-  p < TOP -> quirk_free cs p ->
+  p < TOP ->
   exists t n, acl_parse toks = POk (any4 toks) (any6 toks) t n /\
     (snd (acl_match (any4 toks) (any6 toks) t p) = true <-> acl_spec (any4 toks) (any6 toks) cs p).
 Proof.
-  intros HP HV Hok Hp Q.
-  destruct (acl_parse_ok toks cs HP HV Hok (quirk_free_vals_of cs p Q)) as (t & n & E & St).
-  exists t, n. split; [exact E|]. apply (acl_match_ok cs t _ _ p Hok St Hp Q).
+  intros HP HV Hok Hp.
+  destruct (acl_parse_ok toks cs HP HV Hok) as (t & n & E & St).
+  exists t, n. split; [exact E|]. apply (acl_match_ok cs t _ _ p St Hp).
 Qed.
 
 (* the stored ranges are non-empty, increasing and pairwise disjoint *)
@@ -782,39 +636,26 @@ Theorem stored_disjoint cs t : stored_ok cs t ->
   (forall A x B y C, inorder t = A ++ x :: B ++ y :: C -> last_addr x < first_addr y).
 Proof.
   intros [[W S] _]. split.
-  - intros x Hx. rewrite Forall_forall in W. destruct (W x Hx) as [(G1 & _) _]. exact G1.
+  - intros x Hx. rewrite Forall_forall in W. destruct (W x Hx) as (G1 & _). exact G1.
   - apply sd_disjoint, S.
 Qed.
 
 (* comparators on sorted disjoint configured values *)
-Theorem net_cmp_monotone cs p : Forall cv_ok cs -> p < TOP -> quirk_free cs p -> sd (map cv_val cs) ->
+Theorem net_cmp_monotone cs p : Forall cv_ok cs -> p < TOP -> sd (map cv_val cs) ->
   mono (net_cmp p) (map cv_val cs).
-Proof.
-  intros Hok Hp Q S. apply (mono_net_cmp p _ Hp); [|exact S].
-  rewrite Forall_forall. intros w Hw. apply in_map_iff in Hw. destruct Hw as (c & <- & Hc).
-  destruct (inst_gs cs Hok c Hc) as [G Sr]. split; [exact G|]. exact (inst_tameA cs Hok p _ Hp Q Sr).
-Qed.
+Proof. intros Hok Hp S. apply (mono_net_cmp p _ Hp); [apply good_cv_all, Hok| exact S]. Qed.
 
-Theorem icompare_monotone cs c : Forall cv_ok (c :: cs) -> quirk_free_vals (c :: cs) -> sd (map cv_val cs) ->
+Theorem icompare_monotone cs c : cv_ok c -> Forall cv_ok cs -> sd (map cv_val cs) ->
   mono (icompare (cv_val c)) (map cv_val cs).
-Proof.
-  intros Hok Q S.
-  apply (mono_icompare (okpt_of (c :: cs)) (okm_of (c :: cs)) (inst_lt _ Q) (inst_gt _ Hok Q)).
-  - apply (inst_gs (c :: cs) Hok c). left. reflexivity.
-  - rewrite Forall_forall. intros w Hw. apply in_map_iff in Hw. destruct Hw as (c' & <- & Hc).
-    apply (inst_gs (c :: cs) Hok c'). right. exact Hc.
-  - exact S.
-Qed.
+Proof. intros Hc Hok S. apply mono_icompare; [apply good_cv, Hc| apply good_cv_all, Hok| exact S]. Qed.
 
-Theorem compare_overlap c1 c2 : cv_ok c1 -> cv_ok c2 -> quirk_free_vals [c1; c2] ->
+Theorem compare_overlap c1 c2 : cv_ok c1 -> cv_ok c2 ->
   ((icompare (cv_val c1) (cv_val c2) < 0)%Z <-> cv_hi c1 < cv_lo c2) /\
   ((icompare (cv_val c1) (cv_val c2) > 0)%Z <-> cv_hi c2 < cv_lo c1) /\
   ((icompare (cv_val c1) (cv_val c2) = 0)%Z <-> exists x, cv_in x c1 /\ cv_in x c2).
 Proof.
-  intros H1 H2 Q. assert (Hok : Forall cv_ok [c1; c2]) by (repeat constructor; assumption).
-  pose proof (inst_gs [c1; c2] Hok c1 ltac:(left; reflexivity)) as G1.
-  pose proof (inst_gs [c1; c2] Hok c2 ltac:(right; left; reflexivity)) as G2.
-  destruct (icompare_spec _ _ (inst_lt _ Q) (inst_gt _ Hok Q) _ _ G1 G2) as (X1 & X2 & X3).
+  intros H1 H2.
+  destruct (icompare_spec _ _ (good_cv c1 H1) (good_cv c2 H2)) as (X1 & X2 & X3).
   unfold before in *. rewrite (cv_first c1 H1), (cv_last c1 H1), (cv_first c2 H2), (cv_last c2 H2) in *.
   pose proof (cv_hi_top c1 H1) as [L1 _]. pose proof (cv_hi_top c2 H2) as [L2 _].
   split; [exact X1|]. split; [exact X2|]. rewrite X3. unfold cv_in. split.
@@ -822,34 +663,19 @@ Proof.
   - intros (x & I1 & I2). lia.
 Qed.
 
-Theorem netcompare_sign c p : cv_ok c -> p < TOP -> tameA p (cv_val c) ->
+Theorem subset_is_inclusion c1 c2 : cv_ok c1 -> cv_ok c2 ->
+  (is_subset (cv_val c1) (cv_val c2) = true <-> cv_lo c2 <= cv_lo c1 /\ cv_hi c1 <= cv_hi c2).
+Proof.
+  intros H1 H2. rewrite is_subset_spec, (cv_first c1 H1), (cv_last c1 H1), (cv_first c2 H2), (cv_last c2 H2). reflexivity.
+Qed.
+
+Theorem netcompare_sign c p : cv_ok c -> p < TOP ->
   ((net_cmp p (cv_val c) < 0)%Z <-> p < cv_lo c) /\
   ((net_cmp p (cv_val c) = 0)%Z <-> cv_in p c) /\
   ((net_cmp p (cv_val c) > 0)%Z <-> cv_hi c < p).
 Proof.
-  intros H Hp T. destruct (good_cv c H) as (_ & _ & _ & G4). destruct (G4 p Hp T) as [X1 X2].
+  intros H Hp. destruct (good_cv c H) as (_ & _ & _ & G4). destruct (G4 p Hp) as [X1 X2].
   rewrite (cv_first c H), (cv_last c H) in *. unfold cv_in. repeat split; intros; lia.
-Qed.
-
-(* ---------- lists of IPv4 values: correct for every probe ---------- *)
-Definition v4_only (c : cval) : Prop := isIPv4 (cv_lo c) = true /\ isIPv4 (cv_hi c) = true.
-
-Lemma isIPv4_range e : isIPv4 e = true <-> V4ANY <= e <= V4NO.
-Proof.
-  unfold isIPv4. rewrite N.eqb_eq. consts. change (2 ^ 32) with 4294967296.
-  pose proof (N.div_mod e 4294967296 ltac:(lia)). pose proof (N.mod_lt e 4294967296 ltac:(lia)). split; intros; lia.
-Qed.
-
-Theorem v4_lists_quirk_free cs p : Forall cv_ok cs -> Forall v4_only cs -> quirk_free cs p.
-Proof.
-  intros Hok H4.
-  assert (HP : forall e, In e (points cs) -> e = 0 \/ V4ANY <= e <= V4NO).
-  { intros e He. unfold points in He. apply in_flat_map in He. destruct He as (c & Hc & He).
-    rewrite Forall_forall in Hok, H4. specialize (Hok c Hc). destruct (H4 c Hc) as [V1 V2].
-    apply isIPv4_range in V1, V2.
-    destruct c as [a h|a b h]; cbn [pts_of cv_ok cv_lo cv_hi In] in *;
-      destruct He as [<-|[<-|[<-|[]]]]; try lia. }
-  split; left; intros e He L; destruct (HP e He); unfold lowv6, highv6 in L; consts; lia.
 Qed.
 
 (* ---------- tokens that are plain values ---------- *)
@@ -881,7 +707,6 @@ Proof.
   rewrite <- N.ldiff_ones_r. symmetry. apply pmask_ldiff. destruct v4; lia.
 Qed.
 
-(* ---------- the full statement is false for the code as it is ---------- *)
 Lemma cv_ok_net0 a : a < TOP -> cv_ok (CNet a 0).
 Proof. intros H. cbn [cv_ok]. change (2 ^ 0) with 1. rewrite N.mod_1_r. lia. Qed.
 Lemma cv_ok_range0 a b : a <= b -> b < TOP -> (b = V4ANY -> a = V4ANY) -> cv_ok (CRange a b 0).
@@ -891,52 +716,21 @@ Proof. unfold cv_in, cv_lo, cv_hi. change (2 ^ 0) with 1. lia. Qed.
 Lemma cv_in_range0 x a b : cv_in x (CRange a b 0) <-> a <= x <= b.
 Proof. unfold cv_in, cv_lo, cv_hi. change (2 ^ 0) with 1. lia. Qed.
 
-(* acl x src ::1 0.0.0.0   does not match ::1 (acl x src 0.0.0.0 ::1 does) *)
-Lemma missed_witness :
-  let cs := [CNet 1 0; CNet V4ANY 0] in
-  Forall cv_ok cs /\ acl_spec false false cs 1 /\
-  exists t n, acl_parse (plain_toks cs) = POk false false t n /\ snd (acl_match false false t 1) = false.
-Proof.
-  cbv zeta. split; [repeat (apply Forall_cons || apply Forall_nil); apply cv_ok_net0; consts; lia|]. split.
-  - right. right. right. exists (CNet 1 0). split; [left; reflexivity| apply cv_in_net0; reflexivity].
-  - eexists. eexists. split; [vm_compute; reflexivity|]. vm_compute. reflexivity.
-Qed.
-
-Lemma order_witness :
-  let cs := [CNet V4ANY 0; CNet 1 0] in
-  exists t n, acl_parse (plain_toks cs) = POk false false t n /\ snd (acl_match false false t 1) = true.
-Proof. cbv zeta. eexists. eexists. split; [vm_compute; reflexivity|]. vm_compute. reflexivity. Qed.
-
-(* acl x src ::1-::5   matches 0.0.0.0 *)
-Lemma spurious_any_witness :
-  let cs := [CRange 1 5 0] in
-  Forall cv_ok cs /\ ~ acl_spec false false cs V4ANY /\
-  exists t n, acl_parse (plain_toks cs) = POk false false t n /\ snd (acl_match false false t V4ANY) = true.
-Proof.
-  cbv zeta. split; [repeat (apply Forall_cons || apply Forall_nil); apply cv_ok_range0; consts; lia|]. split.
-  - intros [[? _]|[[? _]|[[? _]|(c & [<-|[]] & Hin)]]]; try discriminate. pose proof (proj1 (cv_in_range0 _ _ _) Hin) as Hin2. consts. lia.
-  - eexists. eexists. split; [vm_compute; reflexivity|]. vm_compute. reflexivity.
-Qed.
-
 Definition db8_1 : N := 42540766411282592856903984951653826561.   (* 2001:db8::1 *)
 Definition db8_5 : N := 42540766411282592856903984951653826565.   (* 2001:db8::5 *)
 
-(* acl x src 2001:db8::1-2001:db8::5   matches 255.255.255.255 *)
-Lemma spurious_no_witness :
-  let cs := [CRange db8_1 db8_5 0] in
-  Forall cv_ok cs /\ ~ acl_spec false false cs V4NO /\
-  exists t n, acl_parse (plain_toks cs) = POk false false t n /\ snd (acl_match false false t V4NO) = true.
+(* the situations that went wrong before 98f97cc (Ip::Address::operator< and friends are not an order);
+   they also follow from acl_correct, and are kept as computed regressions *)
+Lemma fixed_anyaddr_order :
+  (let cs := [CNet 1 0; CNet V4ANY 0] in
+   exists t n, acl_parse (plain_toks cs) = POk false false t n /\ snd (acl_match false false t 1) = true) /\
+  (let cs := [CRange 1 5 0] in
+   exists t n, acl_parse (plain_toks cs) = POk false false t n /\ snd (acl_match false false t V4ANY) = false) /\
+  (let cs := [CRange db8_1 db8_5 0] in
+   exists t n, acl_parse (plain_toks cs) = POk false false t n /\ snd (acl_match false false t V4NO) = false).
 Proof.
-  cbv zeta. split; [repeat (apply Forall_cons || apply Forall_nil); apply cv_ok_range0; unfold db8_1, db8_5; consts; lia|]. split.
-  - intros [[? _]|[[? _]|[[? _]|(c & [<-|[]] & Hin)]]]; try discriminate. pose proof (proj1 (cv_in_range0 _ _ _) Hin) as Hin2.
-    unfold db8_1, db8_5 in Hin2. consts. lia.
-  - eexists. eexists. split; [vm_compute; reflexivity|]. vm_compute. reflexivity.
+  cbv zeta. repeat split; (eexists; eexists; split; [vm_compute; reflexivity|]; vm_compute; reflexivity).
 Qed.
-
-Lemma operators_not_an_order :
-  addr_lt V4ANY 1 = true /\ addr_lt 1 V4ANY = true /\
-  addr_gt V4NO db8_1 = true /\ addr_gt db8_1 V4NO = true.
-Proof. vm_compute. auto. Qed.
 
 (* "::/0": DecodeMask() turns prefix length 0 into the NoAddr (all-ones) mask, i.e. the single address :: *)
 Lemma prefix0_witness :
@@ -956,27 +750,19 @@ Lemma reversed_range_witness :
 Proof. vm_compute. reflexivity. Qed.
 
 (* ---------- statements assembled for Properties_C42.v ---------- *)
-Lemma operators_numeric_except x y : y < TOP ->
-  (~ (x = V4ANY /\ lowv6 y) -> addr_lt x y = (x <? y) /\ addr_le x y = (x <=? y)) /\
-  (~ (x = V4NO /\ highv6 y) -> addr_gt x y = (y <? x) /\ addr_ge x y = (y <=? x)).
-Proof.
-  intros Hy. split; intros H; split;
-    [apply addr_lt_num| apply addr_le_num| apply addr_gt_num| apply addr_ge_num]; assumption.
-Qed.
-
 Lemma first_last_ends c : cv_ok c ->
   first_addr (cv_val c) = cv_lo c /\ last_addr (cv_val c) = cv_hi c /\
   (forall x, cv_in x c <-> cv_lo c <= x <= cv_hi c).
 Proof. intros H. split; [apply cv_first, H|]. split; [apply cv_last, H|]. intros x. reflexivity. Qed.
 
 Lemma parse_disjoint_same_union toks cs :
-  Forall tok_parsed toks -> vals_of toks = map cv_val cs -> Forall cv_ok cs -> quirk_free_vals cs ->
+  Forall tok_parsed toks -> vals_of toks = map cv_val cs -> Forall cv_ok cs ->
   exists t n, acl_parse toks = POk (any4 toks) (any6 toks) t n /\
     (forall x, In x (inorder t) -> first_addr x <= last_addr x) /\
     (forall A x B y C, inorder t = A ++ x :: B ++ y :: C -> last_addr x < first_addr y) /\
     (forall q, (exists w, In w (inorder t) /\ first_addr w <= q <= last_addr w) <-> (exists c, In c cs /\ cv_in q c)).
 Proof.
-  intros HP HV Hok Q. destruct (acl_parse_ok toks cs HP HV Hok Q) as (t & n & E & St).
+  intros HP HV Hok. destruct (acl_parse_ok toks cs HP HV Hok) as (t & n & E & St).
   exists t, n. split; [exact E|]. destruct (stored_disjoint cs t St) as [D1 D2].
   split; [exact D1|]. split; [exact D2|]. exact (proj2 St).
 Qed.
@@ -990,29 +776,15 @@ Definition net10 : N := V4ANY + 167772160.           (* 10.0.0.0 *)
 Definition blk_lo : N := V4ANY + 3232237328.         (* 192.168.7.16 *)
 Definition blk_hi : N := V4ANY + 3232237335.         (* 192.168.7.23 *)
 
-Lemma ex_values_ok : Forall cv_ok [CNet net10 24; CRange blk_lo blk_hi 0; CNet db8_1 0].
+Lemma ex_values_ok : Forall cv_ok [CNet net10 24; CRange blk_lo blk_hi 0; CNet db8_1 0; CNet V4ANY 0; CRange 1 5 0].
 Proof.
   unfold net10, blk_lo, blk_hi. repeat (apply Forall_cons || apply Forall_nil).
   - cbn [cv_ok]. split; [lia|]. split; [rewrite V4ANY_val, TOP_val; lia|]. vm_compute. reflexivity.
   - apply cv_ok_range0; rewrite ?V4ANY_val, ?TOP_val; lia.
   - apply cv_ok_net0. unfold db8_1. rewrite TOP_val. lia.
+  - apply cv_ok_net0. rewrite V4ANY_val, TOP_val. lia.
+  - apply cv_ok_range0; rewrite ?V4ANY_val, ?TOP_val; lia.
 Qed.
 
 Lemma ex_plain_tokens cs : Forall tok_parsed (plain_toks cs) /\ vals_of (plain_toks cs) = map cv_val cs.
 Proof. split; [apply plain_toks_parsed| apply plain_toks_vals]. Qed.
-
-(* 10.0.0.0/8 next to 2001:db8::1, address 2001:db8::5 looked up *)
-Lemma ex_quirk_free_mixed : quirk_free [CNet net10 24; CNet db8_1 0] db8_5.
-Proof.
-  unfold net10. split.
-  - left. intros e He L. unfold lowv6 in L. cbn [points flat_map pts_of app In] in He.
-    change (2 ^ 24) with 16777216 in He. change (2 ^ 0) with 1 in He. unfold db8_1 in He.
-    rewrite V4ANY_val in *. lia.
-  - right. split; intros He; cbn [points probe_points flat_map map pts_of app In cv_val mk] in He;
-      [change (2 ^ 24) with 16777216 in He; change (2 ^ 0) with 1 in He; unfold db8_1 in He;
-       rewrite V4ANY_val, V4NO_val in *; lia|].
-    destruct He as [He|[He|[He|[]]]]; vm_compute in He; discriminate.
-Qed.
-
-Lemma ex_tameA : tameA db8_5 (cv_val (CRange db8_1 db8_5 0)).
-Proof. split; vm_compute; reflexivity. Qed.
